@@ -164,3 +164,37 @@ pub fn scratch_dir(tag: &str) -> std::path::PathBuf {
 pub fn gen_cfg(r: &mut Sm, case: u64) -> RunCfg {
     RunCfg { preset: (case % 3) as u8, dim: 2 + r.below(4) as usize, num_tune: 0, num_draws: 0, num_chains: 1 + r.below(3) as usize, chain: 0, fault_period: if case % 2 == 0 { 11 + r.below(20) } else { 0 }, seed: r.next(), store_divergences: r.coin(), store_mass_matrix: r.coin() }
 }
+
+// ---------------------------------------------------------------------------------- Arrow reader
+use arrow::array::{Array as ArrowArray, BooleanArray, Float32Array, Float64Array, Int64Array, LargeListArray, StringArray, UInt64Array};
+
+pub fn arrow_scalar(a: &dyn ArrowArray, i: usize) -> Option<Vec<Cell>> {
+    if a.is_null(i) { return None; }
+    let any = a.as_any();
+    if let Some(x) = any.downcast_ref::<Float64Array>() { return Some(vec![Cell::F(x.value(i).to_bits())]); }
+    if let Some(x) = any.downcast_ref::<Float32Array>() { return Some(vec![Cell::F32(x.value(i).to_bits())]); }
+    if let Some(x) = any.downcast_ref::<UInt64Array>() { return Some(vec![Cell::U(x.value(i))]); }
+    if let Some(x) = any.downcast_ref::<Int64Array>() { return Some(vec![Cell::I(x.value(i))]); }
+    if let Some(x) = any.downcast_ref::<BooleanArray>() { return Some(vec![Cell::B(x.value(i))]); }
+    if let Some(x) = any.downcast_ref::<StringArray>() { return Some(vec![Cell::S(x.value(i).to_string())]); }
+    if let Some(l) = any.downcast_ref::<LargeListArray>() {
+        let inner = l.value(i);
+        let mut out = vec![];
+        for j in 0..inner.len() { out.extend(arrow_scalar(inner.as_ref(), j).unwrap_or_default()); }
+        return Some(out);
+    }
+    Some(vec![Cell::S(format!("?{:?}", a.data_type()))])
+}
+
+
+/// every column of an Arrow record batch as the concatenation of its non-null rows (draw/chain bookkeeping columns dropped)
+pub fn arrow_batch_cells(b: &arrow::record_batch::RecordBatch) -> BTreeMap<String, Vec<Cell>> {
+    let mut out = BTreeMap::new();
+    for (f, col) in b.schema().fields().iter().zip(b.columns().iter()) {
+        if f.name() == "draw" || f.name() == "chain" { continue; }
+        let mut cells = vec![];
+        for i in 0..col.len() { if let Some(c) = arrow_scalar(col.as_ref(), i) { cells.extend(c); } }
+        out.insert(f.name().to_string(), cells);
+    }
+    out
+}
